@@ -3,6 +3,8 @@ import Driver.Cache
 import Driver.VE
 import Driver.Stack
 import Driver.WQ
+import Driver.Pub
+import Driver.Stress
 
 def main (args : List String) : IO UInt32 := do
   match args with
@@ -12,4 +14,7 @@ def main (args : List String) : IO UInt32 := do
   | ["stack"] => Driver.Stack.main; return 0
   | ["stackconc"] => Driver.Stack.main; return 0
   | ["wq"] => Driver.WQ.main; return 0
+  | ["pub"] => Driver.Pub.main; return 0
+  | ["wqstress"] => Driver.Stress.main Driver.Stress.wq; return 0
+  | ["pubstress"] => Driver.Pub.stressMain; return 0
   | _ => IO.eprintln "usage: tvdriver <component> < trace"; return 2
